@@ -130,3 +130,181 @@ Example C19_counters_example :
   interleaving [[OpInc KQueries; OpExport]; [OpInc KQueries]] [OpInc KQueries; OpInc KQueries; OpExport].
 Proof. exact counters_example. Qed.
 Print Assumptions C19_counters_example.
+
+(* ================================================================== C19 x C01: the counters follow the SERVED response
+   (Model/ComposeMore.v, Proofs/LinkCountersServe.v, Proofs/LinkCountersSpec.v).
+   [serve q] above is the handler model on an ARBITRARY description q of what happened.  Model/Serve.v is the model
+   of what the same handler replies over a store.  [class_of sd b st q locr ecs max] computes the description from
+   the very reader calls Model/Serve.serve makes (IsAuthoritative, the DS re-evaluation, FindAnswer, the zone-cut
+   unpack) and from its outcome (number of answer records of the message written); [sd] holds what Model/Serve does
+   not model: DO bit, loc.Mask, whether WriteMsg failed.  Cache off (Model/Compose.v puts the cache on top),
+   AcquireReader and PackDomainName succeed (C19_class_of_fixed).
+   [resp_class sd out]: the response class of a Serve outcome as the writes of the handler: a reply with rcode
+   SERVFAIL is dns.HandleFailed's bare message, any other reply the composed response (rcode, AA, number of answer
+   records - the number announced by the IPick items, which is the number after the draw: C11_served_addresses_sound,
+   clause nlen (c_an y) = item_count (rs_an x)), ONoReply nothing. *)
+Close Scope Z_scope.
+Open Scope N_scope.
+From DnsV Require Import Model.Store Model.LookupV1 Model.Serve Spec.Answer Spec.Rows.
+From DnsV Require Import Proofs.Compile Proofs.ZoneCut Proofs.Referral Proofs.AnswerItems.
+From DnsV Require Model.Compose Proofs.Compose.
+From DnsV Require Import Model.ComposeMore Proofs.LinkWrsServe Proofs.LinkWrsServeExample.
+From DnsV Require Import Proofs.LinkCountersServe Proofs.LinkCountersSpec Proofs.LinkCountersExample.
+
+(* C19_counters_follow_serve.  For every store, backend, query, location result and max answer for which the reader
+   does not panic (C13), with o the handler model's increments / log calls / writes on the description of that run:
+   DNS_queries once, the query's type counter once and no other type counter, no counter twice, the writes ARE the
+   response class of the Serve outcome, and
+   - a composed reply x that was written: DNS_queries_nxdomain iff rcode 3, _refused iff 5, _badvers iff 16,
+     _nodata iff rcode 0 with no answer record, _notauthoritative iff AA clear; the logger gets that message, once;
+   - a bare SERVFAIL, no reply at all, or a failed WriteMsg: no outcome counter moves, nothing is logged as sent *)
+Theorem C19_counters_follow_serve : forall sd b st q locr ecs max,
+  Model.Serve.serve b st q locr ecs max <> OPanic -> Model.Serve.serve b st q locr ecs max <> OFuel ->
+  let out := Model.Serve.serve b st q locr ecs max in
+  let o := Model.Counters.serve (class_of sd b st q locr ecs max) in
+  let l := o_incs o in
+  cnt KQueries l = 1%nat /\
+  cnt (KType (q_type q)) l = 1%nat /\
+  (forall t, t <> q_type q -> cnt (KType t) l = 0%nat) /\
+  (forall k, (cnt k l <= 1)%nat) /\
+  resp_class sd out = Some (o_writes o) /\
+  match out with
+  | OReply x =>
+      if (rs_rcode x =? 2) || s_write_err sd
+      then cnt KNxdomain l = 0%nat /\ cnt KRefused l = 0%nat /\ cnt KBadvers l = 0%nat /\
+           cnt KNodata l = 0%nat /\ cnt KNotAuthoritative l = 0%nat /\ nlog LogSent (o_logs o) = 0%nat
+      else cnt KNxdomain l = b2n (rs_rcode x =? 3) /\
+           cnt KRefused l = b2n (rs_rcode x =? 5) /\
+           cnt KBadvers l = b2n (rs_rcode x =? 16) /\
+           cnt KNodata l = b2n ((rs_rcode x =? 0) && (item_count (rs_an x) =? 0)) /\
+           cnt KNotAuthoritative l = b2n (negb (rs_aa x)) /\
+           o_logs o = [LogSent]
+  | _ => cnt KNxdomain l = 0%nat /\ cnt KRefused l = 0%nat /\ cnt KBadvers l = 0%nat /\
+         cnt KNodata l = 0%nat /\ cnt KNotAuthoritative l = 0%nat /\ nlog LogSent (o_logs o) = 0%nat
+  end.
+Proof. exact counters_follow_serve. Qed.
+Print Assumptions C19_counters_follow_serve.
+
+(* the adapter lemma behind it, for ANY reader (label-by-label or closest-key) and any announced number of sent
+   answers: the writes of the handler model on the computed description are the response class of what
+   Model/Serve.serve_with replies *)
+Theorem C19_writes_are_serve_outcome : forall C (rd : reader C) sd c0 q locr ecs max nsent,
+  match serve_with C rd c0 q locr ecs max with
+  | OReply x =>
+      o_writes (Model.Counters.serve (run_class C rd sd c0 q locr max nsent)) =
+        [if rs_rcode x =? 2 then WrBare else WrComposed (rs_rcode x) (rs_aa x) nsent (negb (s_write_err sd))]
+  | ONoReply => o_writes (Model.Counters.serve (run_class C rd sd c0 q locr max nsent)) = []
+  | _ => True
+  end.
+Proof. exact writes_of_run. Qed.
+Print Assumptions C19_writes_are_serve_outcome.
+
+(* the fields of the description that Model/Serve does not decide *)
+Theorem C19_class_of_fixed : forall sd b st q locr ecs max,
+  q_reader_ok (class_of sd b st q locr ecs max) = true /\
+  q_do (class_of sd b st q locr ecs max) = s_do sd /\
+  q_qtype (class_of sd b st q locr ecs max) = q_type q /\
+  q_edns_ok (class_of sd b st q locr ecs max) = edns_ok q /\
+  q_pack_ok (class_of sd b st q locr ecs max) = true /\
+  q_loc (class_of sd b st q locr ecs max) = loc_class sd locr /\
+  q_cache_on (class_of sd b st q locr ecs max) = false /\
+  q_sent_answers (class_of sd b st q locr ecs max) =
+    (match Model.Serve.serve b st q locr ecs max with OReply x => item_count (rs_an x) | _ => 0 end) /\
+  q_write_err (class_of sd b st q locr ecs max) = s_write_err sd.
+Proof. exact class_of_fixed. Qed.
+Print Assumptions C19_class_of_fixed.
+
+(* C19_counters_by_spec: composed with C01 - the outcome counters as a function of what the data DECLARES.
+   For every database form of Proofs/Compose.gen_declares (the rows of Spec/Rows in v1 / v2 key layout, guards of
+   C01_response_is_spec(_v2); everything the modelled compilers produce from the text of a well-formed data file,
+   C01_file_level - C12_gen_declares_meaning), a client located in L, a wire-valid query with EDNS version 0 or no
+   OPT whose reply x was written, by response class of Spec/Answer.spec_response:
+   - Refused (outside every zone): DNS_queries_refused and DNS_queries_notauthoritative once; nxdomain, nodata 0;
+   - Referral (not DS): DNS_queries_nodata and DNS_queries_notauthoritative once (a referral has an empty answer
+     section: counted as NODATA - observed on the real server, see the C19 report); nxdomain, refused 0;
+   - Answer z nx ans soa (authoritative): DNS_queries_nxdomain is incremented iff nx, i.e. iff neither the name nor
+     a covering wildcard has a visible record ([source_records L recs z n = []]); DNS_queries_nodata iff not nx
+     and the declared records yield no answer record: [declared_count max ans] = selected non-address records +
+     min(max, positive-weight A) + min(max, positive-weight AAAA) = 0 (in particular a name whose only addresses
+     have weight 0 counts as NODATA, not NXDOMAIN); refused, notauthoritative 0;
+   and in every class DNS_queries once, the type counter once, DNS_queries_badvers 0, the reply logged once. *)
+Theorem C19_counters_by_spec : forall g L recs, Proofs.Compose.gen_declares g L recs ->
+  forall sd q n ecs max x,
+  wf_name n -> nlen (pack n) <= 255 -> lower_bytes (q_name q) = pack n ->
+  (q_edns q = None \/ q_edns q = Some 0) ->
+  Model.Serve.serve (Model.Compose.g_backend g) (Model.Compose.g_store g) q (Model.Serve.LocOk L) ecs max = OReply x ->
+  s_write_err sd = false ->
+  let o := Model.Counters.serve
+             (class_of sd (Model.Compose.g_backend g) (Model.Compose.g_store g) q (Model.Serve.LocOk L) ecs max) in
+  let l := o_incs o in
+  cnt KQueries l = 1%nat /\ cnt (KType (q_type q)) l = 1%nat /\
+  (forall t, t <> q_type q -> cnt (KType t) l = 0%nat) /\
+  match spec_response L recs n (q_type q) with
+  | Refused =>
+      cnt KRefused l = 1%nat /\ cnt KNxdomain l = 0%nat /\ cnt KNodata l = 0%nat /\
+      cnt KNotAuthoritative l = 1%nat /\ cnt KBadvers l = 0%nat /\ o_logs o = [LogSent]
+  | Referral z nsr =>
+      q_type q <> 43 ->
+      cnt KRefused l = 0%nat /\ cnt KNxdomain l = 0%nat /\ cnt KNodata l = 1%nat /\
+      cnt KNotAuthoritative l = 1%nat /\ cnt KBadvers l = 0%nat /\ o_logs o = [LogSent]
+  | Answer z nx ans soa =>
+      cnt KRefused l = 0%nat /\ cnt KNotAuthoritative l = 0%nat /\
+      cnt KNxdomain l = b2n nx /\
+      (nx = true <-> source_records L recs z n = []) /\
+      cnt KNodata l = b2n (negb nx && (declared_count max ans =? 0)) /\
+      cnt KBadvers l = 0%nat /\ o_logs o = [LogSent]
+  end.
+Proof. exact counters_follow_spec. Qed.
+Print Assumptions C19_counters_by_spec.
+
+Theorem C19_declared_count_meaning : forall max ans,
+  declared_count max ans =
+  nlen (filter (fun r => negb (is_addr_rec r)) ans) +
+  N.min max (nlen (filter (fun r => 0 <? r_weight r) (of_type 1 ans))) +
+  N.min max (nlen (filter (fun r => 0 <? r_weight r) (of_type 28 ans))).
+Proof. reflexivity. Qed.
+Print Assumptions C19_declared_count_meaning.
+
+(* the same with the guards of C01_response_is_spec spelled out (label-by-label reader over the compiled store) *)
+Theorem C19_counters_by_spec_v1 : forall b recs L, wf_recs recs -> Forall wf_ns_rdata recs -> length L = 2%nat ->
+  b <> RDB2 -> wf_view L recs = true -> forall sd q n ecs max x,
+  wf_name n -> nlen (pack n) <= 255 -> lower_bytes (q_name q) = pack n ->
+  (q_edns q = None \/ q_edns q = Some 0) ->
+  Model.Serve.serve b (store_v1 recs) q (Model.Serve.LocOk L) ecs max = OReply x ->
+  s_write_err sd = false ->
+  counters_by_spec L recs n q max
+    (Model.Counters.serve (class_of sd b (store_v1 recs) q (Model.Serve.LocOk L) ecs max)).
+Proof. exact counters_follow_spec_v1. Qed.
+Print Assumptions C19_counters_by_spec_v1.
+
+(* core, independent of the backend: any written reply that refines the spec (C01_response_refines_meaning) *)
+Theorem C19_counters_by_refinement : forall sd L recs n q ecs max x o,
+  Proofs.FileLevel.response_refines L recs n q ecs max x ->
+  counters_follow sd q (OReply x) o -> s_write_err sd = false ->
+  counters_by_spec L recs n q max o.
+Proof. exact counters_by_refinement. Qed.
+Print Assumptions C19_counters_by_refinement.
+
+(* non-vacuity (record set e_recs of C11_served_addresses_example; client in ab found without ECS; no DO bit; write
+   succeeds; e_cls q locr = class_of ... CDB (store_v1 e_recs) q locr None 2): ANY a.z. two answers, no outcome
+   counter; A w.z. (only a weight-0 address) NODATA, not NXDOMAIN; A x.z. NXDOMAIN; A x.y. REFUSED and not
+   authoritative; EDNS version 1 BADVERS; no location: no reply, no outcome counter, LogFailed *)
+Example C19_counters_follow_example :
+  o_incs (Model.Counters.serve (e_cls e_q1 (Model.Serve.LocOk e_L))) = [KQueries; KType 255; KLocResolver; KRespAuth] /\
+  o_writes (Model.Counters.serve (e_cls e_q1 (Model.Serve.LocOk e_L))) = [WrComposed 0 true 2 true] /\
+  o_incs (Model.Counters.serve (e_cls e_q2 (Model.Serve.LocOk e_L))) = [KQueries; KType 1; KLocResolver; KRespAuth; KNodata] /\
+  spec_response e_L e_recs [[119]; [122]] 1 =
+    Answer [[122]] false [mkRec [[119]; [122]] false None 1 10 0 [10; 0; 0; 9]] [mkRec [[122]] false None 6 60 0 e_soa] /\
+  declared_count 2 [mkRec [[119]; [122]] false None 1 10 0 [10; 0; 0; 9]] = 0 /\
+  o_incs (Model.Counters.serve (e_cls e_q4 (Model.Serve.LocOk e_L))) = [KQueries; KType 1; KLocResolver; KRespAuth; KNxdomain] /\
+  spec_response e_L e_recs [[120]; [122]] 1 = Answer [[122]] true [] [mkRec [[122]] false None 6 60 0 e_soa] /\
+  o_incs (Model.Counters.serve (e_cls e_q5 (Model.Serve.LocOk e_L))) =
+    [KQueries; KType 1; KLocResolver; KRespRefused; KNotAuthoritative; KRefused] /\
+  spec_response e_L e_recs [[120]; [121]] 1 = Refused /\
+  o_incs (Model.Counters.serve (e_cls e_q6 (Model.Serve.LocOk e_L))) = [KQueries; KType 1; KNotAuthoritative; KBadvers] /\
+  o_incs (Model.Counters.serve (e_cls e_q1 Model.Serve.LocNil)) = [KQueries; KType 255] /\
+  o_logs (Model.Counters.serve (e_cls e_q1 Model.Serve.LocNil)) = [LogFailedReq] /\
+  o_writes (Model.Counters.serve (e_cls e_q1 Model.Serve.LocNil)) = [] /\
+  Model.Serve.serve CDB (store_v1 e_recs) e_q1 Model.Serve.LocNil None 2 = ONoReply.
+Proof. exact counters_follow_example. Qed.
+Print Assumptions C19_counters_follow_example.
